@@ -807,7 +807,7 @@ class JSArrayBuffer(JSObject):
 
 def native_result(result: Any) -> JSValue:
     """What a native (host) function returned, as a JavaScript value: None is undefined,
-    Python lists and dicts become arrays and objects (deeply), the rest passes through."""
+    Python lists and dicts become arrays and objects (deeply), JavaScript values pass through."""
     if result is None:
         return UNDEFINED
     if isinstance(result, list):
@@ -821,4 +821,13 @@ def native_result(result: Any) -> JSValue:
         for key, item in result.items():
             obj.set(str(key), NULL if item is None else native_result(item))
         return obj
-    return result
+    if (
+        isinstance(result, (bool, int, float, str, JSObject, JSFunction, JSBoundMethod))
+        or result is UNDEFINED
+        or result is NULL
+        or callable(result)
+    ):
+        return result
+    # Any other host object (tuple, set, bytes, ...) has no JavaScript counterpart:
+    # like Context.set(), hand the script undefined rather than the host object itself
+    return UNDEFINED
